@@ -16,7 +16,7 @@ from glue.core.message import (DataUpdateMessage, DataRemoveComponentMessage,
                                ComponentReplacedMessage, DataReorderComponentMessage,
                                ExternallyDerivableComponentsChangedMessage,
                                PixelAlignedDataChangedMessage)
-from glue.core.decorators import clear_cache
+from glue.core.decorators import clear_all_caches
 from glue.core.util import split_component_view
 from glue.core.hub import Hub
 from glue.core.subset import Subset, SubsetState, SliceSubsetState
@@ -1556,8 +1556,9 @@ class Data(BaseCartesianData):
             msg = NumericalDataChangedMessage(self, components_changed=list(mapping.keys()))
             self.hub.broadcast(msg)
 
-        for subset in self.subsets:
-            clear_cache(subset.subset_state.to_mask)
+        # Cached masks may depend on the old values, also for composite subset
+        # states and subset states that are not attached to this dataset
+        clear_all_caches()
 
     def update_values_from_data(self, data):
         """
@@ -1633,8 +1634,9 @@ class Data(BaseCartesianData):
             msg = NumericalDataChangedMessage(self)
             self.hub.broadcast(msg)
 
-        for subset in self.subsets:
-            clear_cache(subset.subset_state.to_mask)
+        # Cached masks may depend on the old values, also for composite subset
+        # states and subset states that are not attached to this dataset
+        clear_all_caches()
 
     # The following are methods for accessing the data in various ways that
     # can be overriden by subclasses that want to improve performance.
